@@ -1,6 +1,7 @@
 import PcfgVerif.Properties.OmenTrainCore
 import PcfgVerif.Lemmas.OmenFilesD
 import PcfgVerif.Lemmas.OmenCountLemmas
+import PcfgVerif.Lemmas.OmenScorerFilesLemmas
 /-!
 # C11 — trainer, scorer and guesser agree on every string's OMEN level
 
@@ -61,6 +62,14 @@ example : ∃ tb s0, exTT.loadTables = some tb ∧ tb.start = some s0 := by
   obtain ⟨tb, h1, h2, _⟩ := C11_guesser_from_files exTT exTT_wf 0
   exact ⟨tb, _, h1, h2.trans exTT_start⟩
 
+/-- **scorer = trainer, over the files.**  `loadScorer` is `OmenScorer._load_omen` on the records of `IP.level`, `CP.level`,
+`LN.level` (dict assignment per line; the n-gram size read off the first `CP.level` line, −1 when there is none), `STabs.parse`
+is `OmenScorer.parse` on those dictionaries: for every string it returns the level the trainer assigns. -/
+theorem C11_scorer_from_files (t : TTables) (hwf : t.WF) (s : Str) :
+    (loadScorer t.ipLines t.cpLines t.lnLines).parse s = t.trainerLevel s := by
+  rw [scorer_from_files t hwf.good s]
+  exact C11_scorer t hwf s
+
 /-- **the hypothesis `WF` is a theorem for what the trainer builds.**  `trainTTables` is the OMEN half of the trainer as a
 function of the password list (`Model/OmenCount.lean`: `AlphabetGenerator`, `AlphabetLookup.parse`, `apply_smoothing`); `lvl` is
 `_calc_level`, of which only the clamp to `0..maxLevel` is used (`log` / `floor` are opaque to the kernel).  For every password
@@ -73,12 +82,12 @@ theorem C11_trained_tables_wf (lvl : Nat → Nat → Nat → Nat) (alphabetSize 
   ⟨g.ngram_ge, g.keys_nodup, g.key_len, g.letters_nodup, g.ip_levels, g.cp_levels, g.ln_levels⟩
 
 /-- **C11 from the training list to the guess**, no hypothesis about tables or files left: for every training list and every
-string, the scorer's level is the trainer's level, the OMEN files the trainer writes load, and the generator run over the loaded
+string, the scorer's `parse` on the dictionaries it loads from the trainer's files returns the trainer's level, the guesser's loader accepts the files, and the generator run over the loaded
 tables emits the string at level `L` (once) iff the trainer's third pass assigns `L` to it -/
 theorem C11_trained (lvl : Nat → Nat → Nat → Nat) (alphabetSize ngram minLength maxLength maxLevel : Nat)
     (hn : 2 ≤ ngram) (hl : ∀ a b c, lvl a b c ≤ maxLevel) (pws : List Str) (target : Nat) :
     let t := trainTTables lvl alphabetSize ngram minLength maxLength maxLevel pws
-    (∀ s, t.scorerLevel s = t.trainerLevel s) ∧
+    (∀ s, (loadScorer t.ipLines t.cpLines t.lnLines).parse s = t.trainerLevel s) ∧
     ∃ tb, t.loadTables = some tb ∧
       ∀ s0, tb.start = some s0 →
         ∃ N, (∀ fuel, N ≤ fuel → tb.enumFrom target fuel s0 = tb.enumFrom target N s0) ∧
@@ -86,7 +95,7 @@ theorem C11_trained (lvl : Nat → Nat → Nat → Nat) (alphabetSize ngram minL
           ∀ s : Str, s ∈ tb.enumFrom target N s0 ↔ t.trainerLevel s = some target := by
   intro t
   have hwf := C11_trained_tables_wf lvl alphabetSize ngram minLength maxLength maxLevel hn hl pws
-  refine ⟨fun s => C11_scorer t hwf s, ?_⟩
+  refine ⟨fun s => C11_scorer_from_files t hwf s, ?_⟩
   obtain ⟨tb, h1, _, h3⟩ := C11_guesser_from_files t hwf target
   exact ⟨tb, h1, h3⟩
 
